@@ -63,6 +63,8 @@ func c09Setup() {
 	})
 }
 
+var c09WordlessDocs = []synthDoc{{Cat: "License", Name: "Synth-NoticeOnly", Variant: "v.txt", Text: "Copyright 2020 Example Corp\n"}, {Cat: "Header", Name: "Synth-Empty", Variant: "e.txt", Text: ""}}
+
 var c09Longest []int
 
 func c09LongestDocs() []int {
@@ -100,6 +102,11 @@ func c09Gen(t *rapid.T) interface{} {
 				{Kind: "del", Pos: lib.IntN(t, 0, 5000, "p")}, {Kind: "delline", Pos: lib.IntN(t, 0, 500, "p")}}
 		}
 		c.Pool = append(c.Pool, recipe{Segs: []seg{s}})
+	}
+	if lib.IntN(t, 0, 2, "withUnknownVersionNumber") == 0 {
+		// "version" followed by a number no corpus document contains (each batch another one)
+		k := lib.IntN(t, 0, len(c.Pool)-1, "versionIn")
+		c.Pool[k].Segs = append([]seg{{Kind: "raw", Raw: []byte(fmt.Sprintf("zqproduct version %d.%d.%d\n", lib.IntN(t, 7, 99, "v1"), lib.IntN(t, 11, 99, "v2"), lib.IntN(t, 0, 99, "v3")))}}, c.Pool[k].Segs...)
 	}
 	if lib.IntN(t, 0, 3, "withVeryLongDocument") == 0 {
 		// one of the five longest corpus documents, lightly edited: code paths that depend on the size of the texts
@@ -140,6 +147,8 @@ func c09Check(ci interface{}) lib.Outcome {
 		for _, r := range c.Pool {
 			traceSel.Docs = append(traceSel.Docs, r.docs()...)
 		}
+		// custom corpora also hold documents without a single word (a notice only, an empty file)
+		traceSel.Synth = c09WordlessDocs
 		shared = buildClassifier(0.8, traceSel.files())
 		if c.Trace > 0 {
 			shared.SetTraceConfiguration(c09TraceConfig(c.Trace))
@@ -156,6 +165,7 @@ func c09Check(ci interface{}) lib.Outcome {
 			for _, r := range c.Pool {
 				sel.Docs = append(sel.Docs, r.docs()...)
 			}
+			sel.Synth = c09WordlessDocs
 			res = classifierFor(0.8, sel).Match(inputs[i]) // sequential reference, same small corpus, no tracing
 		} else {
 			res = c09Ref.Match(inputs[i]) // sequential reference on a separate instance
